@@ -187,3 +187,26 @@ Example C03_ex_heap :
   map snd h = [1%nat; 0%nat; 2%nat; 3%nat] /\ heap_inv_b stream_cmp h = true /\
   option_map (fun r => (snd (fst r), map snd (snd r))) (pop_max stream_cmp h) = Some (1%nat, [2%nat; 0%nat; 3%nat]).
 Proof. vm_compute. auto. Qed.
+
+(* ---- the two orders of the replay are the comparators of the C source.
+   Translator unit cmp_player regenerates coq/Gen/Cmp_player_gen.v from player.c / trace.c on
+   every run (comparison part translated from the C AST, fetching statements pinned as text). *)
+From OV Require Gen.Cmp_player_gen Proofs.CmpPlayerProofs.
+
+(* the heap of the merge is ordered by player.c:stream_cmp *)
+Theorem C03_heap_order_from_source : forall a b : hnode,
+  Cmp_player_gen.stream_cmp_core (fst a) (fst b) = stream_cmp a b.
+Proof. exact CmpPlayerProofs.stream_cmp_is_model. Qed.
+Print Assumptions C03_heap_order_from_source.
+
+(* it is the inverted three-way comparison of the clocks: the max-heap pops the smallest clock *)
+Theorem C03_heap_order_inverted : forall a b, Cmp_player_gen.stream_cmp_core a b = CmpPre.cmp3 b a.
+Proof. exact CmpPlayerProofs.stream_cmp_core_inverted. Qed.
+Print Assumptions C03_heap_order_inverted.
+
+(* the enumeration-independent stream order is DL_SORT by trace.c:cmp_streams *)
+Theorem C03_stream_order_from_source : forall enum,
+  sort_streams enum = fold_right CmpPlayerProofs.ins_stream_src [] enum.
+Proof. exact CmpPlayerProofs.sort_streams_from_source. Qed.
+Print Assumptions C03_stream_order_from_source.
+
